@@ -62,6 +62,14 @@ def history_actions(tier):
         "parse|C/(1-1)",
         "tucan|v3:benzene-13C-rad",
         "permute|v3:cube",
+        # these do not change the module state of a correct library (no new BFS states), but their results are
+        # scribbled on / they are rejected inputs: a later identical call must be unaffected
+        "read|v3:single",
+        "read|v2:ethanol-d",
+        "canon|v3:salt",
+        "read|bad:pseudo-X",
+        "read|bad:pseudo-RX",
+        "read|bad:pseudo-XR",
     ]
     if tier == "thorough":
         names += ["parse|Og2/(1-2)/(2:mass=294)(1:mass=295)", "parse|C//(1:mass=2,mass=3)", "parse|C/(1 -2)",
